@@ -170,6 +170,8 @@ add("ProbabilisticAL_rbf_emptydict", P.ProbabilisticAL,
 add("QBC_KL", P.QueryByCommittee, lambda s, ml=NAN: P.QueryByCommittee(missing_label=ml, random_state=s),
     lambda c: dict(ensemble=clf_bag(c["classes"], c.get("ml", NAN))), arbitrary_index_ok=True,
     model_arg="ensemble")
+add("QBC_VE_bag", P.QueryByCommittee, lambda s, ml=NAN: P.QueryByCommittee(method="vote_entropy", missing_label=ml, random_state=s),
+    lambda c: dict(ensemble=clf_bag(c["classes"], c.get("ml", NAN))), arbitrary_index_ok=True, model_arg="ensemble")
 for _m, _n in [("KL_divergence", "KL"), ("vote_entropy", "VE"), ("variation_ratios", "VR")]:
     # the vote-based methods count the members' hard predictions, whose ties are broken at random: another candidate set or
     # row order changes the random stream, so restriction / permutation are only claimed for the probability-based method
